@@ -962,6 +962,151 @@ def rw_filter_map_loop(text, nth, fired, fname, ctype=''):
     raise Undecided('lost-anchor', 'filter_map_loop %d: no such adapter chain in %s' % (nth, fname))
 
 
+def rw_boxed_chain(text, fired, fname):
+    """R36 (added for unit `fragments` / C03, directive `@@boxed_chain`; sibling of R25): a function whose
+    result is a boxed iterator — `-> Box<dyn Iterator<Item = T>>`, built as `Box::new(CHAIN)` /
+    `Box::new(iter::empty())` — is verified as the function that returns the `Vec<T>` of the items
+    the iterator yields, in order.  LAZINESS IS DROPPED: what is proved is the sequence of items, not
+    when they are computed (the stages must be free of side effects for that to be the same thing).
+      * every type `Box<dyn [lifetime +] Iterator<Item = T>>` in the text  ->  `Vec<T>`
+      * `Box::new(X)` -> `(X)`,   `iter::empty()` -> `Vec::new()`
+      * every CHAIN = `(A..B)` followed by adapters `.take(N)` / `.take_while(|p| E)` /
+        `.filter([move] |p| E)` / `.map([move] |p| E)` becomes the block expression
+          { let mut vx_b_k: Vec<T> = Vec::new(); let mut vx_t_k_j: usize = 0; ..   // one counter per take
+            for vx_x_k_0 in A..B {
+              if vx_t_k_j >= (N) { break; } vx_t_k_j = vx_t_k_j + 1;    // take(N): at most N items of ITS input
+              if !({ let p = &vx_x_k_i; E }) { break; }                   // take_while
+              if ({ let p = &vx_x_k_i; E }) {                             // filter (closed after the push)
+              let vx_x_k_i+1 = { let p = vx_x_k_i; E };                   // map
+              vx_b_k.push(vx_x_k_last); } } vx_b_k }
+        — each adapter by its definition, applied to every item in chain order.  Closure bodies are
+        the verbatim source text on their lines; closure parameters must be single identifiers.
+    The new `for` loops count as ordinary loops for @@loop / @@name_for numbering."""
+    src = Src(text)
+    ed = Edits(text)
+    # ---- types
+    elem = None
+    i = 0
+    ntypes = 0
+    while i < src.n():
+        if src.s(i) == 'Box' and src.s(i + 1) == '<' and src.s(i + 2) == 'dyn':
+            e = src.skip_generics(i + 1)          # index after the closing '>' / '>>'
+            toks = [src.s(x) for x in range(i, e)]
+            if 'Iterator' not in toks or 'Item' not in toks:
+                raise Undecided('unsupported-construct', 'boxed_chain: %s: boxed dyn type is not an Iterator' % fname)
+            it = toks.index('Item')
+            if toks[it + 1] != '=':
+                raise Undecided('unsupported-construct', 'boxed_chain: %s: cannot read the item type' % fname)
+            ty = ''.join(toks[it + 2:]).rstrip('>')
+            if elem is not None and ty != elem:
+                raise Undecided('unsupported-construct', 'boxed_chain: %s: two different item types' % fname)
+            elem = ty
+            a, b = src.t(i).pos, src.t(e - 1).end
+            if i > 0 and src.s(i - 1) == 'as':
+                # `X as Box<dyn Iterator<..>>` is the unsizing coercion to the trait object: identity on the
+                # Vec view (and Verus rejects a `Vec as Vec` cast) -> the cast is dropped
+                a = src.t(i - 1).pos
+                ed.replace(a, b, keep_newlines(text[a:b]))
+            else:
+                ed.replace(a, b, 'Vec<%s>' % ty + keep_newlines(text[a:b]))
+            ntypes += 1
+            i = e
+            continue
+        i += 1
+    if elem is None:
+        raise Undecided('lost-anchor', 'boxed_chain: %s does not mention Box<dyn Iterator<Item = ..>>' % fname)
+    fired.append(('R36', 1, 'Box<dyn Iterator<Item = %s>> -> Vec<%s> (%d places): the function is verified as returning the items its iterator yields, in order; laziness dropped' % (elem, elem, ntypes)))
+    # ---- Box::new(X) -> (X), iter::empty() -> Vec::new()
+    for i in range(src.n()):
+        if src.s(i) == 'Box' and src.s(i + 1) == '::' and src.s(i + 2) == 'new' and src.s(i + 3) == '(':
+            a, b = src.t(i).pos, src.t(i + 2).end
+            ed.replace(a, b, keep_newlines(text[a:b]))
+            fired.append(('R36', src.line_of(a), 'Box::new(X) -> (X)'))
+        if src.s(i) == 'iter' and src.s(i + 1) == '::' and src.s(i + 2) == 'empty' and src.s(i + 3) == '(' and src.s(i + 4) == ')':
+            if i >= 2 and src.s(i - 1) == '::' and src.s(i - 2) in ('std', 'core'):
+                continue
+            a, b = src.t(i).pos, src.t(i + 4).end
+            ed.replace(a, b, 'Vec::new()' + keep_newlines(text[a:b]))
+            fired.append(('R36', src.line_of(a), 'iter::empty() -> Vec::new()'))
+    # ---- chains over a range
+    ADAPT = ('take', 'take_while', 'filter', 'map')
+    k = 0
+    i = 0
+    while i < src.n():
+        if src.s(i) == '(' and src.s(src.match[i] + 1) == '.' and src.s(src.match[i] + 2) in ADAPT \
+                and src.s(src.match[i] + 3) == '(':
+            cl = src.match[i]
+            # a range at depth 0 inside the parentheses?
+            j = i + 1
+            has_range = False
+            while j < cl:
+                if src.s(j) in rscan.OPEN:
+                    j = src.match[j] + 1; continue
+                if src.s(j) in ('..', '..='):
+                    has_range = True
+                j += 1
+            if not has_range:
+                i += 1; continue
+            k += 1
+            rng = text[src.t(i + 1).pos:src.t(cl - 1).end].replace('\n', ' ')
+            stages = []
+            j = cl + 1
+            while src.s(j) == '.' and src.s(j + 1) in ADAPT and src.s(j + 2) == '(':
+                stages.append((src.s(j + 1), j + 2, src.match[j + 2]))
+                j = src.match[j + 2] + 1
+            if src.s(j) == '.':
+                raise Undecided('unsupported-construct', 'boxed_chain: %s: adapter `.%s` is not one of take/take_while/filter/map' % (fname, src.s(j + 1)))
+            ntake = sum(1 for st in stages if st[0] == 'take')
+            pending = '{ let mut vx_b_%d: Vec<%s> = Vec::new(); ' % (k, elem)
+            for tj in range(ntake):
+                pending += 'let mut vx_t_%d_%d: usize = 0; ' % (k, tj)
+            pending += 'for vx_x_%d_0 in %s { ' % (k, rng)
+            prev_end = src.t(i).pos
+            closers = ''
+            cur = 0
+            tj = 0
+            for (nm, op, cp) in stages:
+                if nm == 'take':
+                    n_txt = text[src.t(op + 1).pos:src.t(cp - 1).end].replace('\n', ' ')
+                    pending += 'if vx_t_%d_%d >= (%s) { break; } vx_t_%d_%d = vx_t_%d_%d + 1; ' % (k, tj, n_txt, k, tj, k, tj)
+                    tj += 1
+                    # nothing verbatim is kept of `.take(N)` (N is copied above): flush right here
+                    ed.replace(prev_end, src.t(cp).end, pending + keep_newlines(text[prev_end:src.t(cp).end]))
+                    pending = ''
+                    prev_end = src.t(cp).end
+                    continue
+                q = op + 1
+                if src.s(q) == 'move':
+                    q += 1
+                if not (src.s(q) == '|' and src.t(q + 1).kind == 'ident' and src.s(q + 2) == '|'):
+                    raise Undecided('unsupported-construct', 'boxed_chain: %s: %s closure parameter is not a single identifier' % (fname, nm))
+                p = src.s(q + 1)
+                body_a = src.t(q + 3).pos
+                body_b = src.t(cp - 1).end
+                if nm == 'take_while':
+                    head = pending + 'if !({ let %s = &vx_x_%d_%d; ' % (p, k, cur)
+                    pending = ' }) { break; } '
+                elif nm == 'filter':
+                    head = pending + 'if ({ let %s = &vx_x_%d_%d; ' % (p, k, cur)
+                    pending = ' }) { '
+                    closers += '} '
+                else:   # map
+                    head = pending + 'let vx_x_%d_%d = { let %s = vx_x_%d_%d; ' % (k, cur + 1, p, k, cur)
+                    pending = ' }; '
+                    cur += 1
+                ed.replace(prev_end, body_a, head + keep_newlines(text[prev_end:body_a]))
+                prev_end = body_b
+            last_b = src.t(stages[-1][2]).end
+            ed.replace(prev_end, last_b, pending + 'vx_b_%d.push(vx_x_%d_%d); %s} vx_b_%d }' % (k, k, cur, closers, k)
+                       + keep_newlines(text[prev_end:last_b]))
+            fired.append(('R36', src.line_of(src.t(i).pos), 'iterator chain (%s).%s -> loop collecting the yielded items into vx_b_%d'
+                          % (rng, '.'.join(st[0] + '(..)' for st in stages), k)))
+            i = stages[-1][2] + 1
+            continue
+        i += 1
+    return ed.apply()
+
+
 def rw_match_map(text, nth, fired, fname):
     """R17b: the nth expression `EXPR.map(|PAT| BODY)` whose closure captures `&mut` state (value
     used) becomes `match EXPR { Some(PAT) => Some(BODY), None => None }` — the definition of
@@ -1519,6 +1664,9 @@ class StmtText:
                     q = ps.match[q + 1] + 1; continue
                 if s_ in rscan.OPEN:
                     cur_.extend(ps.s(x) for x in range(q, ps.match[q] + 1)); q = ps.match[q] + 1; continue
+                if s_ == '<':       # generic arguments of a type: their commas do not separate parameters
+                    e_ = ps.skip_generics(q)
+                    cur_.extend(ps.s(x) for x in range(q, e_)); q = e_; continue
                 if s_ == ',':
                     out_.append(cur_); cur_ = []
                 else:
@@ -1622,6 +1770,259 @@ class StmtText:
                        % (' '.join(ltoks), selector, hdr.strip(), cont if cont is not None else '()',
                           ('; given by the unit, not checked against the source: ' + '; '.join(notes)) if notes else ''))]
         self.attrs = it.attrs
+        owner = selector.rsplit('::', 1)[0] if '::' in selector else ''
+        self.name = (owner.split(' for ')[-1].strip() + '::' if owner else '') + name
+
+
+class ClosureText:
+    """R35 closure-to-function (added for unit `cache_window`; sibling of R11 / R34, directive
+        @@extract closure <file> <Type::fn> <k> as=<name> params="<param list>" ret="<type>" [generics="<'a>"]
+    ): the BODY of the k-th closure of the function (source order, counted as `@@closure k` counts them)
+    becomes the body of the generated `fn <name><generics>(<params>) -> <ret> { [let PAT = p;] BODY }` — for
+    closures inside adapter chains / boxed iterators that cannot go through Verus as a whole.  A `return`
+    inside a closure returns from the closure, i.e. from the generated function.
+    params= lists (a) every name the body uses that is bound OUTSIDE the closure (parameters of the enclosing
+    function, `let` / `for` bindings before the closure, self): guard as R34 — each such name must be a
+    parameter, parameters of the enclosing function / annotated lets repeated token-identically (lifetimes
+    and `mut` apart), none of them declared `mut`; and (b), in order, the closure's own parameters: a plain
+    parameter `x` under its own name; a pattern parameter either as ONE fresh name p (then `let PAT = p;`
+    is prepended, R5 applied to `&x` sub-patterns, as R19 does) or, for a flat tuple pattern `(a, b)`, as
+    the separate parameters `a: TA, b: TB` (a closure taking the tuple (a, b)).  The types of the closure's
+    parameters and of un-annotated lets are the unit's (recorded in the rewrite note)."""
+
+    def __init__(self, repo, rel, selector, k, name, params, security=False, impl_re=None, nth=None,
+                 ret=None, generics=None):
+        self.rel, self.selector = rel, selector
+        src = load_src(repo, rel)
+        it = find_fn(src, selector, security, impl_re, nth)
+        if it.open_si is None:
+            raise Undecided('unsupported-construct', 'fn %s has no body' % selector)
+        fob, fcb = it.open_si, src.match[it.open_si]
+        cls = closure_starts(src, fob + 1, fcb)
+        if not (1 <= k <= len(cls)):
+            raise Undecided('lost-anchor', 'R35: closure %d not found in %s (has %d)' % (k, selector, len(cls)))
+        ci = cls[k - 1]
+        if src.s(ci) == '||':
+            pend = ci
+            cpar = []
+        else:
+            j = ci + 1
+            while src.s(j) != '|':
+                if src.s(j) in rscan.OPEN: j = src.match[j]
+                j += 1
+            pend = j
+            # split the closure's parameters at depth-0 commas: (pattern token range, has type)
+            cpar = []
+            q = ci + 1
+            st = q
+            colon = None
+            while q <= pend:
+                s_ = src.s(q)
+                if q == pend or s_ == ',':
+                    if st < q:
+                        cpar.append((st, colon if colon is not None else q, colon is not None, q))
+                    st = q + 1; colon = None
+                    q += 1; continue
+                if s_ in rscan.OPEN:
+                    q = src.match[q] + 1; continue
+                if s_ == '<':
+                    q = src.skip_generics(q); continue
+                if s_ == ':' and colon is None:
+                    colon = q
+                q += 1
+        b0 = pend + 1
+        if src.s(b0) == '->':
+            b0 = rscan.find_block_open(src, b0)
+            if b0 is None:
+                raise Undecided('unsupported-construct', 'R35: closure %d of %s: cannot find its body' % (k, selector))
+        if src.s(b0) == '{':
+            b_end = src.match[b0] + 1
+            block = True
+        else:
+            b_end = expr_end(src, b0, fcb)
+            block = False
+        a, b = src.t(b0).pos, src.t(b_end - 1).end
+        # ---- names bound outside the closure (superset of what is in scope): fn parameters, every
+        # let / for binding before the closure
+        fn_si = next(q for q in range(it.start_si, it.open_si) if src.s(q) == 'fn')
+        po = fn_si + 2
+        if src.s(po) == '<':
+            po = src.skip_generics(po)
+        if src.s(po) != '(':
+            raise Undecided('unsupported-construct', 'R35: cannot find the parameter list of %s' % selector)
+        pc = src.match[po]
+
+        def split_params(ps, lo, hi):
+            out_, cur_ = [], []
+            q = lo
+            while q < hi:
+                s_ = ps.s(q)
+                if s_ == '#' and ps.s(q + 1) == '[':
+                    q = ps.match[q + 1] + 1; continue
+                if s_ in rscan.OPEN:
+                    cur_.extend(ps.s(x) for x in range(q, ps.match[q] + 1)); q = ps.match[q] + 1; continue
+                if s_ == '<':       # generic arguments of a type: their commas do not separate parameters
+                    e_ = ps.skip_generics(q)
+                    cur_.extend(ps.s(x) for x in range(q, e_)); q = e_; continue
+                if s_ == ',':
+                    out_.append(cur_); cur_ = []
+                else:
+                    cur_.append(s_)
+                q += 1
+            if cur_: out_.append(cur_)
+            return out_
+
+        def plain(p_):      # without `mut` and lifetimes
+            return [x for x in p_ if x != 'mut' and not x.startswith("'")]
+
+        def pname_of(p_):
+            p2 = [x for x in plain(p_) if x != '&']
+            return p2[0] if p2 else None
+
+        outer = {}
+        for p_ in split_params(src, po + 1, pc):
+            nm = pname_of(p_)
+            if nm is None: continue
+            if nm == 'self':
+                outer['self'] = (plain(p_), False)
+            else:
+                colon = p_.index(':') if ':' in p_ else None
+                if colon is None or [x for x in p_[:colon] if x != 'mut'] != [nm]:
+                    raise Undecided('unsupported-construct', 'R35: pattern parameter in %s' % selector)
+                outer[nm] = (plain(p_), 'mut' in p_[:colon])
+        q = fob + 1
+        while q < ci:
+            if src.s(q) == 'let' or (src.s(q) == 'for' and src.s(q + 1) != '<'):
+                e = q + 1
+                dd = 0
+                colon = None
+                while e < ci and not (dd == 0 and src.s(e) in ('=', ';', 'in')):
+                    if src.s(e) in rscan.OPEN: dd += 1
+                    elif src.s(e) in rscan.CLOSE: dd -= 1
+                    elif dd == 0 and src.s(e) == ':' and colon is None: colon = e
+                    e += 1
+                pat_end = colon if colon is not None else e
+                bs = _binders(src, q + 1, pat_end)
+                is_mut = any(src.s(x) == 'mut' for x in range(q + 1, pat_end))
+                for bn in bs:
+                    decl = None
+                    if colon is not None and len(bs) == 1 and [src.s(x) for x in range(q + 1, colon) if src.s(x) != 'mut'] == [bn]:
+                        decl = plain([bn, ':'] + [src.s(x) for x in range(colon + 1, e)])
+                    outer[bn] = (decl, is_mut)
+                q = e
+            q += 1
+        # names bound by the closure itself (its parameters, lets / closure parameters / patterns inside its body)
+        inner = set()
+        for (p_lo, p_hi, _, _) in cpar:
+            inner.update(_binders(src, p_lo, p_hi))
+        q = b0
+        while q < b_end:
+            if src.s(q) == 'let':
+                e = q + 1
+                dd = 0
+                while e < b_end and not (dd == 0 and src.s(e) in ('=', ';', ':')):
+                    if src.s(e) in rscan.OPEN: dd += 1
+                    elif src.s(e) in rscan.CLOSE: dd -= 1
+                    e += 1
+                inner.update(_binders(src, q + 1, e))
+            q += 1
+        for c2 in closure_starts(src, b0, b_end):
+            if src.s(c2) == '|':
+                e = c2 + 1
+                while src.s(e) != '|':
+                    if src.s(e) in rscan.OPEN: e = src.match[e]
+                    e += 1
+                inner.update(_binders(src, c2 + 1, e))
+        used = []
+        for q in range(b0, b_end):
+            t = src.t(q)
+            if t.kind != 'ident' or t.s not in outer or t.s in inner:
+                continue
+            if src.s(q - 1) in ('.', '::') or src.s(q + 1) == '::':
+                continue
+            if src.s(q + 1) == ':' and src.s(q - 1) in ('{', ','):
+                continue
+            if t.s not in used:
+                used.append(t.s)
+        psrc = Src(params)
+        gen = []
+        for p_ in split_params(psrc, 0, psrc.n()):
+            nm = pname_of(p_)
+            if nm is not None:
+                gen.append((nm, p_))
+        gnames = [g_[0] for g_ in gen]
+        for nm in used:
+            if nm not in gnames:
+                raise Undecided('unsupported-construct', 'R35: closure %d of %s uses `%s`, bound outside it: must be a parameter of %s'
+                                % (k, selector, nm, name))
+        notes = []
+        own = []        # generated parameters that stand for the closure's own parameters, in order
+        for nm, p_ in gen:
+            if nm in outer and nm not in inner:
+                decl, is_mut = outer[nm]
+                if is_mut:
+                    raise Undecided('unsupported-construct', 'R35: `%s` is declared mut in %s (an effect of the closure on it would escape)' % (nm, selector))
+                if decl is not None:
+                    if plain(p_) != decl:
+                        raise Undecided('unsupported-construct', 'R35: params= must repeat the declaration `%s` of %s' % (' '.join(decl), selector))
+                else:
+                    notes.append(' '.join(p_))
+            else:
+                own.append((nm, p_))
+        prelude = ''
+        fired_r5 = []
+        oi = 0
+        for (p_lo, p_hi, typed, p_stop) in cpar:
+            ptoks = [src.s(x) for x in range(p_lo, p_hi)]
+            ptoks_nm = [x for x in ptoks if x != 'mut']
+            if len(ptoks_nm) == 1 and src.t(p_hi - 1).kind == 'ident':
+                # plain parameter: same name
+                if oi >= len(own) or own[oi][0] != ptoks_nm[0]:
+                    raise Undecided('unsupported-construct', 'R35: params= must name the closure parameter `%s` (in order, after/among the outside names)' % ptoks_nm[0])
+                if typed and plain(own[oi][1]) != plain([ptoks_nm[0], ':'] + [src.s(x) for x in range(p_hi + 1, p_stop)]):
+                    raise Undecided('unsupported-construct', 'R35: params= must repeat the type of the closure parameter `%s`' % ptoks_nm[0])
+                if not typed:
+                    notes.append(' '.join(own[oi][1]))
+                oi += 1
+                continue
+            bs = _binders(src, p_lo, p_hi)
+            flat_tuple = (ptoks[0] == '(' and ptoks[-1] == ')' and
+                          [x for x in ptoks[1:-1] if x != ','] == bs and len(bs) >= 1)
+            if flat_tuple and [o_[0] for o_ in own[oi:oi + len(bs)]] == bs:
+                for o_ in own[oi:oi + len(bs)]:
+                    notes.append(' '.join(o_[1]))
+                oi += len(bs)
+                continue
+            if oi >= len(own):
+                raise Undecided('unsupported-construct', 'R35: params= has no parameter for the closure parameter `%s`' % ' '.join(ptoks))
+            pn = own[oi][0]
+            if any(src.t(x).kind == 'ident' and src.s(x) == pn for x in range(fob, fcb)):
+                raise Undecided('unsupported-construct', 'R35: the name %s (for the closure parameter `%s`) occurs in %s' % (pn, ' '.join(ptoks), selector))
+            pat_txt = src.text[src.t(p_lo).pos:src.t(p_hi - 1).end]
+            pat2, pre = rw_ref_pattern(pat_txt, fired_r5, src.line_of(src.t(p_lo).pos))
+            prelude += 'let %s = %s; %s' % (' '.join(pat2.split()), pn, pre)
+            notes.append(' '.join(own[oi][1]))
+            oi += 1
+        if oi != len(own):
+            raise Undecided('unsupported-construct', 'R35: parameter %s of %s is neither a name bound outside closure %d of %s nor one of its parameters'
+                            % (own[oi][0], name, k, selector))
+        if ret is None:
+            raise Undecided('unsupported-construct', 'R35: ret= is required')
+        hdr = 'fn %s%s(%s) -> %s ' % (name, ' '.join((generics or '').split()), ' '.join(params.split()), ' '.join(ret.split()))
+        body_txt = src.text[a:b]
+        if block and not prelude:
+            self.orig = hdr + body_txt
+        else:
+            self.orig = hdr + '{ ' + prelude + body_txt + ' }'
+        self.first_line = src.line_of(a)
+        self.last_line = src.line_of(b)
+        self.arm_first_line = src.line_of(src.t(ci).pos)
+        self.sha = hashlib.sha256(src.text[src.t(ci).pos:b].encode()).hexdigest()
+        self.fired = [('R35', self.arm_first_line, 'body of closure %d of %s cut into `%s`%s'
+                       % (k, selector, hdr.strip(), ('; given by the unit, not checked against the source: ' + '; '.join(notes)) if notes else ''))] + \
+                     [tuple(f) for f in fired_r5]
+        self.attrs = it.attrs
+        self.pnames = gnames
         owner = selector.rsplit('::', 1)[0] if '::' in selector else ''
         self.name = (owner.split(' for ')[-1].strip() + '::' if owner else '') + name
 
@@ -1980,6 +2381,8 @@ def splice_function(ft, directives, security=False):
     for d in directives:
         if d.kind == 'fold_assign':
             text = rw_fold_assign(text, int(d.arg.split()[0]) if d.arg.strip() else 1, fired, ft.name)   # R31 (unit permissions)
+    if any(d.kind == 'boxed_chain' for d in directives):
+        text = rw_boxed_chain(text, fired, ft.name)      # R36
     for d in directives:
         if d.kind == 'chain_loop':
             # R25: `@@chain_loop k <CollectionType> <insert|push>`
@@ -2490,6 +2893,18 @@ def splice_function(ft, directives, security=False):
                 ed.replace(a, b, newhdr.replace('\n', ' ') + ' {' + keep_newlines(text[a:b]))
                 ed.insert(src.t(e - 1).end, ' }')
             fired.append(('R6', src.line_of(a), 'closure %d annotated' % k))
+        elif d.kind == 'line_label':
+            # `@@line_label "<code tokens>" <label> [n]` (added for unit `cache_window`; cf. `@@closure k label=`):
+            # annotation only — a diagnostic whose span covers the source line where the n-th occurrence of
+            # the token sequence starts (e.g. the failed precondition of a shim call: `.range(`) is reported
+            # under <label> instead of aux.<fn>.pre@..
+            parts = shlex.split(d.arg)
+            if len(parts) < 2:
+                raise Undecided('unsupported-construct', 'line_label needs "<code tokens>" <label> [n]')
+            hit = find_token_seq(src, ob + 1, cb, parts[0], int(parts[2]) if len(parts) > 2 else 1)
+            if hit is None:
+                raise Undecided('lost-anchor', 'line_label %r not found in %s' % (parts[0], ft.name))
+            loop_labels[ft.first_line + src.line_of(src.t(hit[0]).pos) - 1] = ('closure', parts[1])
         elif d.kind == 'refpat':
             # R5 on `let`/match-arm patterns:   refpat "<pattern tokens>" -> "<new pattern>" ; "<prelude>"
             parts = shlex.split(d.arg)
@@ -2986,7 +3401,7 @@ def build_unit(verif_root, repo, unit, security=None, force_degrade=None):
             if st.startswith('@@extract '):
                 pos, kv = parse_kv(st[len('@@extract '):])
                 kind = pos[0]
-                if kind in ('fn', 'arm', 'stmt'):
+                if kind in ('fn', 'arm', 'stmt', 'closure'):
                     rel, sel = pos[1], pos[2]
                     if kind == 'fn' and len(pos) > 3:
                         sel = ' '.join(pos[2:])
@@ -3009,11 +3424,18 @@ def build_unit(verif_root, repo, unit, security=None, force_degrade=None):
                         raise Undecided('unsupported-construct', '%s: @@extract fn without @@end' % relpath)
                     i += 1
                     sec = unit_security[0] if 'cfg' not in kv else (kv['cfg'] == 'security')
-                    if kind == 'stmt':
+                    if kind in ('stmt', 'closure'):
                         # R34 (unit access_sites): @@extract stmt <file> <Type::fn> "<leading tokens>" as=<name> params="<param list>" [ret= cont=]
+                        # R35 (unit cache_window): @@extract closure <file> <Type::fn> <k> as=<name> params="<param list>" ret="<type>" [generics=]
                         if len(pos) != 4 or 'as' not in kv or 'params' not in kv:
-                            raise Undecided('unsupported-construct', '%s: @@extract stmt needs <file> <fn> "<leading tokens>" as= params=' % relpath)
-                        ft = StmtText(repo, rel, sel, pos[3], kv['as'], kv['params'], sec, kv.get('impl'),
+                            raise Undecided('unsupported-construct', '%s: @@extract %s needs <file> <fn> <"leading tokens" | k> as= params=' % (relpath, kind))
+                        if kind == 'closure':
+                            if not pos[3].isdigit():
+                                raise Undecided('unsupported-construct', '%s: @@extract closure needs the closure number k' % relpath)
+                            ft = ClosureText(repo, rel, sel, int(pos[3]), kv['as'], kv['params'], sec, kv.get('impl'),
+                                             int(kv['nth']) if 'nth' in kv else None, ret=kv.get('ret'), generics=kv.get('generics'))
+                        else:
+                            ft = StmtText(repo, rel, sel, pos[3], kv['as'], kv['params'], sec, kv.get('impl'),
                                       int(kv['nth']) if 'nth' in kv else None, ret=kv.get('ret'), cont=kv.get('cont'))
                         try:
                             if ft.name in force_degrade:
